@@ -119,3 +119,61 @@ Theorem C15_popcount_spec :
   (forall a, Forall (fun b => b < 256) a -> popcount pop_count_lut a = count_ones (np_unpackbits_le a)) /\
   (forall a b, popcount pop_count_lut (a ++ b) = popcount pop_count_lut a + popcount pop_count_lut b).
 Proof. split; [exact popcount_spec | exact popcount_app]. Qed.
+
+(** ** mv <-> bp at ANY rank, on the shape-polymorphic array model (Model/NdArray.v: shape + row-major data; swapaxes,
+    packbits / unpackbits along the last axis and axis -2 as small functions, compared with numpy on ranks 0..5) with
+    mv_to_bp / bp_to_mv transcribed call by call (Model/MvWrappers.v).  [L] = any number of leading axes of any lengths (0 included). *)
+From KV Require Import Model.NdArray Model.MvWrappers Proofs.NdConvProofs.
+
+(* lossless: shape (L.., s, p) -> (L.., s, 3, ceil(p/8)) -> (L.., s, 8*ceil(p/8)); every row comes back padded with ZERO *)
+Theorem C15_roundtrip_any_rank : forall L s p D,
+  List.length D = size (L ++ [s; p]) -> codes_lt 8 D ->
+  obind (mv_to_bp (NdA (L ++ [s; p]) D)) bp_to_mv =
+  Some (NdA (L ++ [s; 8 * cdiv8 p]) (flat_map pad8 (rows p (size L * s) D))).
+Proof. exact roundtrip_any_rank. Qed.
+
+(* a 1-D array is one pattern per signal *)
+Theorem C15_roundtrip_rank1 : forall s D, List.length D = s -> codes_lt 8 D ->
+  obind (mv_to_bp (NdA [s] D)) bp_to_mv = Some (NdA [s; 8] (flat_map (fun v => v :: repeat 0 7) D)).
+Proof. exact roundtrip_rank1. Qed.
+
+(* the same by multi-index: element (l.., i, j) comes back; padding lanes read 0 *)
+Theorem C15_roundtrip_get : forall L s p D l i j,
+  List.length D = size (L ++ [s; p]) -> codes_lt 8 D -> in_bounds L l -> i < s -> j < 8 * cdiv8 p ->
+  exists r, obind (mv_to_bp (NdA (L ++ [s; p]) D)) bp_to_mv = Some r /\ nd_shape r = L ++ [s; 8 * cdiv8 p] /\
+    nd_get r (l ++ [i; j]) = if j <? p then nd_get (NdA (L ++ [s; p]) D) (l ++ [i; j]) else 0.
+Proof. exact roundtrip_get. Qed.
+
+(* axis convention at any rank: patterns on the last axis, signals on the second-to-last; plane k of signal i holds bit k,
+   pattern j is bit (j mod 8) of byte (j / 8); lanes beyond the last pattern are 0 *)
+Theorem C15_axis_convention_any_rank : forall L s p D l i k j,
+  List.length D = size (L ++ [s; p]) -> codes_lt 256 D -> in_bounds L l -> i < s -> k < 3 -> j < 8 * cdiv8 p ->
+  exists b, mv_to_bp (NdA (L ++ [s; p]) D) = Some b /\ nd_shape b = L ++ [s; 3; cdiv8 p] /\
+    Nat.testbit (nd_get b (l ++ [i; k; j / 8])) (j mod 8) =
+    (if j <? p then Nat.testbit (nd_get (NdA (L ++ [s; p]) D) (l ++ [i; j])) k else false).
+Proof. exact axis_convention_any_rank. Qed.
+
+Theorem C15_axis_convention_rank1 : forall s D i k, List.length D = s -> codes_lt 256 D -> i < s -> k < 3 ->
+  exists b, mv_to_bp (NdA [s] D) = Some b /\ nd_shape b = [s; 3; 1] /\
+    forall t, t < 8 -> Nat.testbit (nd_get b [i; k; 0]) t = (if t =? 0 then Nat.testbit (nth i D 0) k else false).
+Proof. exact axis_convention_rank1. Qed.
+
+(* the block-structured swapaxes(-1,-2) of the model is the multi-index one: out[l.., j, i] = in[l.., i, j] *)
+Theorem C15_swapaxes_index : forall L a b D l i j,
+  List.length D = size (L ++ [a; b]) -> in_bounds L l -> i < a -> j < b ->
+  exists r, swap_last2 (NdA (L ++ [a; b]) D) = Some r /\ nd_shape r = L ++ [b; a] /\
+    nd_get r (l ++ [j; i]) = nd_get (NdA (L ++ [a; b]) D) (l ++ [i; j]).
+Proof. exact swap_last2_get. Qed.
+
+(* ranks the functions reject: mv_to_bp of a 0-d array, bp_to_mv below 2-D (AxisError) *)
+Theorem C15_conv_low_rank : (forall v, mv_to_bp (NdA [] [v]) = None) /\ (forall sh D, List.length sh < 2 -> bp_to_mv (NdA sh D) = None).
+Proof. exact conv_low_rank. Qed.
+
+Theorem C15_any_rank_example :
+  let L := [2; 1] in let s := 2 in let p := 10 in
+  let D := map (fun k => (3 * k + k / 10) mod 8) (seq 0 40) in
+  List.length D = size (L ++ [s; p]) /\ codes_lt 8 D /\ codes_lt 256 D /\ in_bounds L [1; 0] /\
+  obind (mv_to_bp (NdA (L ++ [s; p]) D)) bp_to_mv = Some (NdA [2; 1; 2; 16] (flat_map pad8 (rows 10 4 D))) /\
+  exists b, mv_to_bp (NdA (L ++ [s; p]) D) = Some b /\ nd_shape b = [2; 1; 2; 3; 2] /\
+    nd_get b [1; 0; 1; 2; 1] = 1 /\ nd_get (NdA (L ++ [s; p]) D) [1; 0; 1; 8] = 5.
+Proof. exact conv_instance. Qed.
